@@ -66,6 +66,7 @@ pub fn scenario_batch_matches_single<C: Suite>(rng: &mut TestRng, p: &Params, no
     };
     let bad_pos = rng.subset(items.len(), nbad);
     let mut how = Vec::new();
+    let mut replay: Vec<usize> = Vec::new();
     for pos in &bad_pos {
         let other_vk = fc::VerifyingKey::<C>::from(&fc::SigningKey::<C>::new(rng));
         if let Some(it) = items.get_mut(*pos) {
@@ -84,11 +85,34 @@ pub fn scenario_batch_matches_single<C: Suite>(rng: &mut TestRng, p: &Params, no
                 "other-message" => it.msg.push(7),
                 "other-key" => it.vk = other_vk,
                 _ => {
-                    // a valid signature, but of another message under the same key: swap in below
+                    // replay of the exact signature of an EARLIER item (which stays valid) under this
+                    // item's own message / key; falls back to a changed message for position 0
                     it.msg = rng.bytes(it.msg.len() + 3);
+                    replay.push(*pos);
                 }
             }
             how.push(json!({"position": pos, "corruption": kind}));
+        }
+    }
+    for pos in replay {
+        let earlier: Vec<usize> = (0..pos).filter(|q| !bad_pos.contains(q)).collect();
+        let q = match earlier.get(rng.below(earlier.len().max(1))) {
+            Some(q) => *q,
+            None => continue,
+        };
+        let (src_sig, src_msg) = match items.get(q) {
+            Some(x) => (x.sig, x.msg.clone()),
+            None => continue,
+        };
+        let other_key = rng.chance(50);
+        let new_vk = fc::VerifyingKey::<C>::from(&fc::SigningKey::<C>::new(rng));
+        if let Some(it) = items.get_mut(pos) {
+            it.sig = src_sig;
+            if other_key {
+                // same message as the original, but another key
+                it.msg = src_msg;
+                it.vk = new_vk;
+            }
         }
     }
     notes.insert("batch_size".into(), json!(items.len()));
@@ -148,7 +172,22 @@ pub fn scenario_batch_cancelling_errors<C: Suite>(rng: &mut TestRng, _p: &Params
         })
         .collect();
     let pair = rng.subset(n, 2);
-    let d = random_nonzero_scalar::<C>(rng);
+    // either shift by +d / -d, or swap the response scalars of the two signatures (d = z_b - z_a)
+    let swap = rng.chance(50);
+    notes.insert("variant".into(), json!(if swap { "responses swapped" } else { "shifted by +d / -d" }));
+    let z_of = |sig: &fc::Signature<C>| -> Option<Sc<C>> {
+        let b = sig.serialize().ok()?;
+        let zlen = scalar_bytes::<C>(&zero::<C>()).len();
+        scalar_from_bytes::<C>(b.get(b.len() - zlen..)?)
+    };
+    let d = if swap {
+        match (pair.first().and_then(|i| items.get(*i)).and_then(|x| z_of(&x.sig)), pair.get(1).and_then(|i| items.get(*i)).and_then(|x| z_of(&x.sig))) {
+            (Some(za), Some(zb)) => zb - za,
+            _ => return skip("cannot read z"),
+        }
+    } else {
+        random_nonzero_scalar::<C>(rng)
+    };
     let (a, b) = match (pair.first(), pair.get(1)) {
         (Some(a), Some(b)) => (*a, *b),
         _ => return skip("internal"),
